@@ -6,10 +6,11 @@ _WORLD_MODULES = {
     "memmap": "worlds.memmap",
     "arbiter": "worlds.arbiter",
     "wbdec": "worlds.wbdec",
+    "wb2csr": "worlds.wb2csr",
 }
 PROPERTY_WORLD = {
     "C04": "mux", "C05": "mux",
-    "C07": "wbdec",
+    "C07": "wbdec", "C10": "wb2csr",
     "C08": "arbiter", "C09": "arbiter",
     "C02": "memmap", "C03": "memmap", "C18": "memmap",
 }
